@@ -317,8 +317,10 @@ def _check_csys(ctx, c_sys, es_list, names, dims, tag, with_basis=True):
         ctx.close(got_b, bref, 1e-13, "csys_basis", tag)
 
 
-def _axis_of(ctx, shape, counts, oid, tag):
-    """{factor position -> axis of the reported shape}; the factor of an axis is identified by its outcome count."""
+def _axis_of(ctx, shape, counts, oid, tag, names=None):
+    """{factor position -> axis of the reported shape}; the factor of an axis is identified by its outcome count.
+    Factors with EQUAL counts cannot be told apart by the shape: among them the axes are taken in ascending subsystem
+    name (the arrangement the property states), which needs `names`."""
     try:
         shape = [int(s) for s in shape]
     except Exception:
@@ -327,7 +329,14 @@ def _axis_of(ctx, shape, counts, oid, tag):
     want = sorted(counts.values())
     if not ctx.check(sorted(shape) == want, oid, f"{tag}: reported shape {shape} is not a permutation of the factor counts {want}"):
         return None
-    return {f: shape.index(c) for f, c in counts.items()}
+    if len(set(counts.values())) == len(counts) or names is None:
+        return {f: shape.index(c) for f, c in counts.items()}
+    out = {}
+    for c in set(counts.values()):
+        axes = [a for a, s_ in enumerate(shape) if s_ == c]
+        tied = sorted((f for f, cc in counts.items() if cc == c), key=lambda f: names[f])
+        out.update(dict(zip(tied, axes)))
+    return out
 
 
 def _serial(shape, idx):
@@ -430,7 +439,9 @@ def _verify(ctx, res, family, refs, es_list, names, dims, exp, tag):
         _check_csys(ctx, res.composite_system, es_list, names, dims, tag)
         _match_elements(ctx, list(res.vecs), exp_el, tol, "povm_elements", tag)
         shape = tuple(res.nums_local_outcomes)
-        ax = _axis_of(ctx, shape, counts, "povm_shape", tag)
+        ax = _axis_of(ctx, shape, counts, "povm_shape", tag, names=names)
+        if len(set(counts.values())) < len(counts):
+            ctx.label("povm:tied-outcome-counts")
         if ax is None:
             return
         for idx in np.ndindex(*shape):
@@ -667,6 +678,13 @@ def kron_case(draw, tier):
         factors = [draw(_factor("state", d)) for d in dims]
     elif family == "povm":
         pool = draw(st.permutations([2, 3, 4, 5]))
+        # textbook products have EQUAL outcome counts (two 2-outcome measurements): every third case ties some or all
+        tie = draw(st.integers(0, 5))
+        if tie == 0:
+            pool = [draw(st.sampled_from([2, 3]))] * k
+        elif tie == 1:
+            pool = list(pool)
+            pool[draw(st.integers(1, k - 1))] = pool[0]
         factors = [draw(_factor("povm", d, pool[i])) for i, d in enumerate(dims)]
     else:
         pool = draw(st.permutations([2, 3, 4]))
@@ -797,7 +815,9 @@ def check_product_statistics(case, ctx):
     pv_counts = {i: pv_refs[i]["m"] for i in range(k)}
     mp_counts = {i: mp_refs[i]["m"] for i in mp_bearing}
     pshape = tuple(povm.nums_local_outcomes)
-    pax = _axis_of(ctx, pshape, pv_counts, "povm_shape", "povm product")
+    pax = _axis_of(ctx, pshape, pv_counts, "povm_shape", "povm product", names=names)
+    if len(set(pv_counts.values())) < len(pv_counts):
+        ctx.label("povm:tied-outcome-counts")
     if pax is None:
         return
     v = np.asarray(rho.vec, dtype=float)
@@ -889,6 +909,8 @@ def stats_case(draw, tier):
         return draw(st.sampled_from(ps))
 
     pool = draw(st.permutations([2, 3, 4, 5]))
+    if draw(st.integers(0, 3)) == 0:
+        pool = [draw(st.sampled_from([2, 3]))] * len(dims)
     case = {
         "chain": chain, "dims": dims, "names": names,
         "states": [draw(_factor("state", dd)) for dd in dims],
